@@ -4,6 +4,7 @@
   determines the outcome from what the callbacks show, and say nothing otherwise.
 -/
 import Rl.Spec.OracleNav
+import Rl.Spec.OracleSearch
 namespace Rl.Spec
 open Rl Rl.Wire
 
@@ -57,8 +58,12 @@ structure KillSt where
   runStart : Option Text := none
   /-- the previous key certainly reset the ring's "last action" (so a kill starts a new slot) -/
   fresh : Bool := true
-  /-- text inserted by the last yank / yank-pop (cursor just after it), and how many pops so far -/
-  lastYank : Option (Text × Nat) := none
+  /-- text inserted by the last yank / yank-pop (cursor just after it) -/
+  lastYank : Option Text := none
+  /-- how far yank-pop has rotated the ring (index into `ring`) -/
+  rot : Nat := 0
+  /-- a kill was made while the ring was rotated (see `closeRun`) -/
+  killedRotated : Bool := false
 
 def oracleC06 (o : ImplObs) : OVerdict :=
   let rec go (k : Nat) (st : KillSt) : List (Obs × Text × Option Nat) → OVerdict
@@ -84,17 +89,20 @@ def oracleC06 (o : ImplObs) : OVerdict :=
       | .yank =>
         let st := closeRun st cb
         match st.ring with
-        | some (x :: _) =>
+        | some (x0 :: xs) =>
+          let x := ((x0 :: xs)[st.rot]?).getD x0
           if cb.n != 1 then go (k + 1) { st with ring := none, fresh := true, lastYank := none } rest
           else
             match insertTextAt cb.line cb.pos x with
             | none => go (k + 1) { st with fresh := true, lastYank := none } rest
             | some exp =>
-              if nl != exp then some s!"C06:yank-did-not-reinsert-exactly-the-killed-text(cb {k})"
+              if nl != exp then
+                some (if st.killedRotated then s!"C06:kill-after-yank-pop-replaced-a-more-recent-kill(cb {k})"
+                      else s!"C06:yank-did-not-reinsert-exactly-the-killed-text(cb {k})")
               else match np with
                 | some q =>
                   if q != cb.pos + blen x then some s!"C06:cursor-not-after-the-yanked-text(cb {k})"
-                  else go (k + 1) { st with fresh := true, lastYank := some (x, 0) } rest
+                  else go (k + 1) { st with fresh := true, lastYank := some x } rest
                 | none => none
         | some [] =>
           -- nothing was killed in this read: the ring is empty (fresh editor): nothing is inserted
@@ -103,12 +111,12 @@ def oracleC06 (o : ImplObs) : OVerdict :=
         | none => go (k + 1) { st with fresh := true, lastYank := none } rest
       | .yankPop =>
         match st.ring, st.lastYank with
-        | some ring, some (prev, pops) =>
+        | some ring, some prev =>
           -- replaces exactly the just-inserted text by the previous kill, cycling through the kills
           let n := ring.length
           if n == 0 then go (k + 1) { st with fresh := true } rest
           else
-            let idx := (pops + 1) % n
+            let idx := (st.rot + 1) % n
             match ring[idx]? with
             | none => go (k + 1) { st with ring := none, lastYank := none } rest
             | some x =>
@@ -116,8 +124,10 @@ def oracleC06 (o : ImplObs) : OVerdict :=
               else
                 match splitAtByte cb.line (cb.pos - blen prev), splitAtByte cb.line cb.pos with
                 | some (a, _), some (_, b) =>
-                  if nl != a ++ x ++ b then some s!"C06:yank-pop-did-not-replace-the-yanked-text-by-the-previous-kill(cb {k})"
-                  else go (k + 1) { st with fresh := true, lastYank := some (x, pops + 1) } rest
+                  if nl != a ++ x ++ b then
+                    some (if st.killedRotated then s!"C06:kill-after-yank-pop-replaced-a-more-recent-kill(cb {k})"
+                          else s!"C06:yank-pop-did-not-replace-the-yanked-text-by-the-previous-kill(cb {k})")
+                  else go (k + 1) { st with fresh := true, lastYank := some x, rot := idx } rest
                 | _, _ => go (k + 1) { st with ring := none, lastYank := none } rest
         | _, _ =>
           -- not directly after a yank: must do nothing
@@ -143,77 +153,99 @@ where
       if l0 == cb.line then { st with runStart := none }       -- nothing was removed: no new slot
       else
         match removedAt l0 cb.line cb.pos, st.ring with
-        | some x, some ring => { st with runStart := none, ring := some ((x :: ring).take 60) }
+        | some x, some ring =>
+          -- a new kill becomes the most recent one; if the ring had been rotated by yank-pop the
+          -- code stores it in the slot after the rotated position, replacing a more recent kill
+          { st with runStart := none, ring := some ((x :: ring).take 60), rot := 0,
+                    killedRotated := st.killedRotated || st.rot != 0 }
         | _, _ => { st with runStart := none, ring := none }
 
 /-! ### C05 -/
 
-/-- one edit step changed the text by exactly one alphanumeric character (insert or delete) -/
-def singleAlnumEdit (alnum : Char → Bool) (a b : Text) : Bool :=
-  let rec diff1 : Text → Text → Option Char
-    | x :: xs, y :: ys => if x == y then diff1 xs ys else if xs == y :: ys then some x else none
-    | [x], [] => some x
-    | _, _ => none
-  if a.length + 1 == b.length then (match diff1 b a with | some c => alnum c | none => false)
-  else if b.length + 1 == a.length then (match diff1 a b with | some c => alnum c | none => false)
+/-- the step changed the text by exactly one character (inserted or deleted) -/
+def singleCharEdit (a b : Text) : Bool :=
+  let rec diff1 : Text → Text → Bool
+    | x :: xs, y :: ys => if x == y then diff1 xs ys else xs == y :: ys
+    | [_], [] => true
+    | _, _ => false
+  if a.length + 1 == b.length then diff1 b a
+  else if b.length + 1 == a.length then diff1 a b
   else false
 
-/-- Emacs mode, `C-_` with count 1.
-    * the text after an Undo must be a text the line had earlier in this read (at a callback) or "";
-    * an Undo directly after a text change that is not a single alphanumeric insertion/deletion must
-      give back exactly the text before that change (it may not jump past it);
-    * after a run of single alphanumeric edits it must land inside that run. -/
-def oracleC05 (alnum : Char → Bool) (hasCompleter : Bool) (histNonEmpty : Bool) (o : ImplObs) : OVerdict :=
-  let rec go (k : Nat) (seen : List Text) (run : List Text) (lastChange : Option (Text × Bool)) (sound : Bool) :
+/-- Emacs mode, `C-_` with count 1 (reading decisions: DESIGN.md 7.1, C05).
+    * The text after an Undo is a text the line had earlier in this read (at a callback), or "".
+    * An Undo never jumps past the state that preceded the most recent word-sized-or-larger edit:
+      with `B` the last text change of more than one character before the Undo, the result is the
+      text before `B` or one of the texts seen since.  (Which single-character edits are merged
+      into one unit is not judged: the code merges a separator with the word typed after it.)
+    Keys whose effect on the undo log the callbacks do not determine (history recall, searches,
+    completion, multi-key commands, yank-pop) suspend the second rule until the next big edit. -/
+def oracleC05 (hasCompleter : Bool) (histNonEmpty : Bool) (o : ImplObs) : OVerdict :=
+  -- `sub`: inside an incremental search (`some (some saved)`: the allowed set saved when it started)
+  -- or a possible completion loop (`some none`)
+  let rec go (k : Nat) (seen : List Text) (since : Option (List Text)) (sub : Option (Option (Option (List Text)))) :
       List (Obs × Text × Option Nat) → OVerdict
     | [] => none
     | (cb, nl, _) :: rest =>
       let seen := if seen.contains cb.line then seen else cb.line :: seen
       if cb.mode != "e" then
-        -- vi insert sessions are explicit groups: only "lands on an earlier text" could be judged, and
-        -- multi-line indents have unobserved intermediate texts; vi is left to the correspondence
-        go (k + 1) seen [] none false rest
+        -- vi insert sessions are explicit groups and multi-line indents have unobserved
+        -- intermediate texts: vi is left to the correspondence with the model
+        go (k + 1) seen none none rest
       else
+      match cb.keys, sub with
+      | [key], some (some saved) =>
+        -- inside the search loop
+        if isAbortKey cb.mode key then
+          -- "aborting … leaves undo behaviour as if that command had never been started"
+          go (k + 1) seen saved none rest
+        else if searchConsumes cb.mode key && (key != ⟨.backspace, 0⟩ || cb.positive) then
+          go (k + 1) seen none sub rest
+        else go (k + 1) seen none none rest      -- the search is accepted: one group; then the key runs
+      | [key], some none =>
+        -- possibly inside the completion loop
+        if completionConsumes cb.mode key then go (k + 1) seen none sub rest
+        else go (k + 1) seen none none rest
+      | _, _ =>
       let isUndo := classifyEmacs cb == .undo && cb.n == 1
       if isUndo then
-        let v : OVerdict :=
-          if !sound then none
-          else
-            match lastChange with
-            | none => none
-            | some (before, single) =>
-              if nl == cb.line then none          -- nothing to undo / nothing happened
-              else if single then
-                (if run.contains nl || nl == before then none
-                 else some s!"C05:undo-jumped-past-the-run-of-single-character-edits(cb {k})")
-              else
-                (if nl == before then none
-                 else some s!"C05:undo-did-not-restore-the-text-before-the-last-edit(cb {k})")
-        match v with
-        | some w => some w
-        | none =>
-          -- after an undo the bookkeeping of units is not reconstructed: stop judging exact units
-          if sound && !(seen.contains nl || nl.isEmpty) then
-            some s!"C05:undo-produced-a-text-the-line-never-had(cb {k})"
-          else go (k + 1) seen [] none false rest
-      else
-        -- keys whose effect on the undo log the callbacks do not determine make the rest unsound
-        let isOpaque : Bool := match cb.keys with
-          | [key] =>
-            key == ⟨.char 'X', 8⟩ || (key == ⟨.char 'R', 8⟩ && histNonEmpty)
-              || ((key == ⟨.tab, 0⟩ || key == ⟨.char 'I', 8⟩) && hasCompleter)
-              || key == ⟨.char 'P', 8⟩ || key == ⟨.char 'N', 8⟩ || key == ⟨.up, 0⟩ || key == ⟨.down, 0⟩
-              || key == ⟨.char '<', 4⟩ || key == ⟨.char '>', 4⟩
-              || key == ⟨.char 'y', 4⟩ || key == ⟨.char 'Y', 4⟩   -- yank-pop is a group of its own
-          | _ => true
-        if isOpaque then go (k + 1) seen [] none false rest
-        else if nl == cb.line then go (k + 1) seen run lastChange sound rest   -- a motion: units unchanged
+        if nl == cb.line then go (k + 1) seen since none rest     -- nothing left to undo
         else
-          let single := singleAlnumEdit alnum cb.line nl
-          -- unit boundaries are only known from a change that cannot merge with what came before
-          let sound' := if single then sound else true
-          let run' := if single then (if run.isEmpty then [cb.line] else cb.line :: run) else []
-          go (k + 1) seen run' (some (cb.line, single)) sound' rest
-  go 0 [[]] [] none false o.steps
+          let v : OVerdict :=
+            match since with
+            | some allowed =>
+              if allowed.contains nl then none
+              else some s!"C05:undo-jumped-past-the-state-before-the-last-word-sized-edit(cb {k})"
+            | none => none
+          match v with
+          | some w => some w
+          | none =>
+            if !(seen.contains nl || nl.isEmpty) then
+              (if since.isSome then some s!"C05:undo-produced-a-text-the-line-never-had(cb {k})" else go (k + 1) seen none none rest)
+            else go (k + 1) seen none none rest   -- after an undo the units are not reconstructed
+      else if classifyEmacs cb == .undo then
+        -- Undo with a repeat count: several units at once, not judged
+        go (k + 1) seen none none rest
+      else
+        match cb.keys with
+        | [key] =>
+          if key == ⟨.char 'R', 8⟩ && histNonEmpty then go (k + 1) seen none (some (some since)) rest
+          else if (key == ⟨.tab, 0⟩ || key == ⟨.char 'I', 8⟩) && hasCompleter then go (k + 1) seen none (some none) rest
+          else
+            let isOpaque : Bool :=
+              key == ⟨.char 'X', 8⟩
+                || key == ⟨.char 'P', 8⟩ || key == ⟨.char 'N', 8⟩ || key == ⟨.up, 0⟩ || key == ⟨.down, 0⟩
+                || key == ⟨.char '<', 4⟩ || key == ⟨.char '>', 4⟩
+                || key == ⟨.char 'y', 4⟩ || key == ⟨.char 'Y', 4⟩
+                || key == ⟨.bracketedPasteStart, 0⟩
+            if isOpaque then go (k + 1) seen none none rest
+            else if nl == cb.line then go (k + 1) seen since none rest
+            else if singleCharEdit cb.line nl then
+              go (k + 1) seen (since.map (fun l => nl :: l)) none rest
+            else
+              -- a word-sized-or-larger edit: from here on an Undo may reach back to the text before it
+              go (k + 1) seen (some [nl, cb.line]) none rest
+        | _ => go (k + 1) seen none none rest
+  go 0 [[]] none none o.steps
 
 end Rl.Spec
